@@ -167,7 +167,10 @@ class EnumRNG(np.random.Generator):
 
     def multinomial(self, n, pvals, size=None):
         if size is not None:
-            raise UnmodelledRandomness("multinomial(size=...)")
+            shape = (size,) if isinstance(size, (int, np.integer)) else tuple(size)
+            total = int(np.prod(shape)) if shape else 1
+            rows = [self.multinomial(n, pvals) for _ in range(total)]  # independent draws: one choice point each
+            return np.array(rows, dtype=np.int64).reshape(shape + (len(rows[0]) if rows else len(pvals),))
         self._dummy.multinomial(n, pvals)  # numpy's own validation (NaN, sum > 1, n < 0 ...)
         pvals = np.asarray(pvals, dtype=float)
         k = len(pvals)
